@@ -104,7 +104,7 @@ def run(tier, seed):
     tb = L.tables()
     W = lambda v: L.word(v, tb)  # noqa
     kw = lambda v: [W(v)]  # noqa
-    trees = [t for t in gen_types(3, 14 if thorough else 7) if t[0] != "b"]
+    trees = [t for t in gen_types(4 if thorough else 3, 10 if thorough else 7) if t[0] != "b"]
     spellings = []
     for t in trees:
         for comma in (",", ", ", " , "):
